@@ -112,7 +112,9 @@ def rbCount (ths : List Th) : Nat := (ths.filter Th.isRb).length
 * `stale` — classifier of `throttle-stale-add`: an `add` left `lastPassedTime` *behind* the caller's own
             clock (`last + iv < now`; only possible after a lost CAS), so the caller passes at `now`
             while the shared timestamp stays earlier;
-* `log`   — admitted requests `(pass time, interval)` in the order in which they were admitted. -/
+* `log`   — admitted requests `(pass time, interval)` in the order in which they were admitted;
+* `rej`   — rejections decided on the shared timestamp (at `th.reload`, or at `th.add` when the re-estimate sends the
+            caller to the rollback): `(clock, interval, admission log at that moment)`. -/
 structure Cfg where
   maxQ : Int
   last : Int
@@ -120,6 +122,7 @@ structure Cfg where
   rb : Bool := false
   stale : Bool := false
   log : List (Int × Int) := []
+  rej : List (Int × Int × List (Int × Int)) := []
 deriving Repr
 
 /-- the configuration after every worker has been advanced to its first yield point -/
@@ -138,7 +141,11 @@ def Cfg.sched (c : Cfg) (i : Nat) : Cfg :=
         ths := c.ths.set i r.2
         rb := c.rb || (if t.isRb then decide (2 ≤ rbCount c.ths) else decide (1 ≤ rbCount c.ths))
         stale := c.stale || (match t.pc with | .add => decide (c.last + t.iv < t.now) | _ => false)
-        log := match r.2.passOf with | some e => c.log ++ [e] | none => c.log }
+        log := match r.2.passOf with | some e => c.log ++ [e] | none => c.log
+        rej := match t.pc, r.2.pc with
+          | .reload, .done .block => c.rej ++ [(t.now, t.iv, c.log)]
+          | .add, .rollback => c.rej ++ [(t.now, t.iv, c.log)]
+          | _, _ => c.rej }
 
 def Cfg.run (c : Cfg) : List Nat → Cfg
   | [] => c
